@@ -90,8 +90,20 @@ def chain_always_pushed(ctx, rule, variants, what):
             continue
         if not any(b.locals[i].startswith(VEC) for i in range(1, b.raw['argc'] + 1)):
             continue
-        built = {st['rv']['var'] for bb, j, st in b.all_assigns() if st['rv']['k'] == 'agg' and st['rv'].get('ak') == 'adt'
-                 and strip_generics(st['rv']['adt']).endswith('user_components::component::UserComponent')}
+        def _built(x, depth=0):
+            out = {st['rv']['var'] for bb, j, st in x.all_assigns() if st['rv']['k'] == 'agg' and st['rv'].get('ak') == 'adt'
+                   and strip_generics(st['rv']['adt']).endswith('user_components::component::UserComponent')}
+            if depth < 2:
+                # the value may be built by a helper that returns it (`kind.user_component(id)`)
+                for _, t in x.calls():
+                    c = strip_generics(callee(t) or '')
+                    if not c.startswith('pavexc::') or t['dest'].get('p') or not x.locals[t['dest']['l']].endswith('user_components::component::UserComponent'):
+                        continue
+                    for y in ctx.fb.bodies_of_item('pavexc', c):
+                        if y.nid == y.nroot:
+                            out |= _built(y, depth + 1)
+            return out
+        built = _built(b)
         if not (built & set(variants)):
             continue
         n += 1
